@@ -117,9 +117,6 @@ def processLine (acc : DAcc) (line : String) : IO DAcc := do
             acc := { acc with mismatches := acc.mismatches + 1 }
             IO.println s!"MISMATCH hist={acc.hist} i={i} op={k} field={f} impl={a} model={b}"
         -- monitors on the implementation's own states
-        for (c, msg) in Monitors.checkState acc.env implPost do
-          acc := { acc with monitorHits := acc.monitorHits + 1 }
-          IO.println s!"MONITOR hist={acc.hist} i={i} op={k} prop={c} {msg}"
         for (c, msg) in Monitors.checkStep acc.env pre op (parseRes resS) implPost do
           acc := { acc with monitorHits := acc.monitorHits + 1 }
           IO.println s!"MONITOR hist={acc.hist} i={i} op={k} prop={c} {msg}"
